@@ -13,7 +13,10 @@
 (*                   observer (mu0 = magpylib.mu_0, multiplied by the      *)
 (*                   harness: the terms of the law are measured, the       *)
 (*                   comparison is made here)                              *)
-(*  kind = "attr": {sid, kind, body, pose, pol, via, attr, dec,            *)
+(*      multi-source calls additionally: pair, twin:{body,pose} = the      *)
+(*      other body of the call (for the joint classification)              *)
+(*  kind = "attr": {sid, kind, body, pose, pol, via, attr, dec, seq,       *)
+(*      outcome, exc, filter,                                              *)
 (*      obs:[{t, o, fin, P, Mu, J, M}]}  P = polarization attribute,       *)
 (*      Mu = mu0 * magnetization attribute, J = getJ, M = mu0*getM at o    *)
 (*      (all q12 with one gross scale, in the local = global frame)        *)
@@ -50,11 +53,23 @@ FieldBad(s, b, o, c) ==
           \* the same observer alone in a call and inside the whole-box call (element independence, property C06)
           \cup (IF s.batch # "single" \/ VecClose12(o.Jq, o.Jbox, TolJ) THEN {} ELSE {<<"batch-J", "C06", 12>>})
 \* ---- attribute scenes
+\* The law holds after EVERY assignment, whatever its outcome (s.outcome: "ok" | "warned" | "raised"; s.filter: "default" |
+\* "error" = warnings escalated to errors | "ignore").  For the steps of an assignment sequence (s.seq) the values before
+\* the assignment (P0, Mu0) and the assigned value A (as a polarization) are logged too: the pair (polarization,
+\* mu0*magnetization) is either unchanged or new in BOTH members - never mixed.
 AttrBad(s, b, o, c) ==
   IF ~o.fin THEN {<<"nonfinite", "C15", 0>>}
   ELSE (IF VecClose12(o.P, o.Mu, TolAttr) THEN {} ELSE {<<"attr-JM", "C02", DevVec(o.P, o.Mu)>>})
        \cup (IF c # "in" \/ VecClose12(o.J, o.P, TolAttr) THEN {} ELSE {<<"J-attr", "C02", DevVec(o.J, o.P)>>})
        \cup (IF c # "in" \/ VecClose12(o.M, o.Mu, TolAttr) THEN {} ELSE {<<"M-attr", "C02", DevVec(o.M, o.Mu)>>})
+       \cup (IF ~s.seq THEN {}
+             ELSE LET chP == ~VecClose12(o.P, o.P0, TolAttr)
+                      chM == ~VecClose12(o.Mu, o.Mu0, TolAttr)
+                      stored == VecClose12(IF s.attr = "polarization" THEN o.P ELSE o.Mu, o.A, TolAttr)
+                  IN (IF chP = chM THEN {} ELSE {<<"attr-mixed", "C02", 12>>})
+                     \* a completed assignment stores the value (C17); one that raised either stored it or left the pair alone
+                     \cup (IF s.outcome # "raised" /\ ~stored THEN {<<"attr-stored", "C17", 12>>} ELSE {})
+                     \cup (IF s.outcome = "raised" /\ s.filter # "error" THEN {<<"attr-raise", "-", 12>>} ELSE {}))
 
 SceneOK(s) == BodyOK(s.body) /\ PoseOK(s.pose)
 \* one pass over the trace: per scene the sequence of [t, c, surf, bad] of its observations ("\o <<>>" makes TLC
@@ -68,15 +83,21 @@ SceneRes(s) == IF ~SceneOK(s) THEN <<>>
 \* rejected observations of scene i: <<tid, clause, property, context>>, and the cells it reached (for the coverage
 \* figure only): class, pose, point class, stratum, in_out, kappa decade (100 = identity)
 SceneOut(s) ==
-  IF ~SceneOK(s) THEN [bad |-> {<<s.obs[1].t, "premise-body", "MACHINERY", <<s.body.cls>>>>}, cells |-> {}]
+  IF ~SceneOK(s) \/ ("twin" \in DOMAIN s /\ ~SceneOK(s.twin)) THEN [bad |-> {<<s.obs[1].t, "premise-body", "MACHINERY", <<s.body.cls>>>>}, cells |-> {}, joint |-> {}, assign |-> {}]
   ELSE LET r == SceneRes(s)
            b == Prep(s.body)
            kd == IF s.kind = "field" THEN (IF s.kap.id THEN 100 ELSE s.kap.dec) ELSE 0 IN
        [bad |-> UNION {{<<r[k].t, v[1], v[2],
                           IF s.kind = "field" THEN <<s.body.cls, r[k].c, Locus(b, r[k].xl, r[k].c), s.inout, s.batch, s.iface, kd, v[3]>>
-                          ELSE <<s.body.cls, r[k].c, s.via, s.attr, s.dec, v[3]>>>> : v \in r[k].bad}
+                          ELSE <<s.body.cls, r[k].c, s.via, s.attr, s.dec, v[3], s.outcome, s.filter, s.seq>>>> : v \in r[k].bad}
                        : k \in {j \in 1..Len(r) : r[j].bad # {}}},
-        cells |-> IF s.kind # "field" THEN {} ELSE {<<s.body.cls, s.ri, r[k].c, r[k].surf, s.inout, kd>> : k \in 1..Len(r)}]
+        cells |-> IF s.kind # "field" THEN {} ELSE {<<s.body.cls, s.ri, r[k].c, r[k].surf, s.inout, kd>> : k \in 1..Len(r)},
+        \* jointly evaluated different bodies: exact class of every observer against BOTH bodies
+        joint |-> IF s.kind # "field" \/ "twin" \notin DOMAIN s THEN {}
+                  ELSE LET b2 == Prep(s.twin.body) IN
+                       {<<s.pair, s.batch, r[k].c, Classify(b2, Local(s.twin.pose, s.obs[k].o))>> : k \in 1..Len(r)},
+        \* outcomes of the assignments of the attribute law
+        assign |-> IF s.kind = "field" THEN {} ELSE {<<s.body.cls, s.via, s.attr, s.outcome, s.filter>>}]
 
 \* one LET so that the trace is read once and every scene is evaluated exactly once
 ASSUME LET tr == Trace
@@ -88,6 +109,8 @@ ASSUME LET tr == Trace
        IN /\ PrintT(<<"validated", Sum(1, Len(tr)), "rejected", Cardinality(bad)>>)
           /\ \A r \in bad : PrintT(<<"REJECT", r[1], r[2], r[3], r[4]>>)
           /\ PrintT(<<"INFO", "cells", UNION {out[i].cells : i \in 1..Len(tr)}>>)
+          /\ PrintT(<<"INFO", "joint", UNION {out[i].joint : i \in 1..Len(tr)}>>)
+          /\ PrintT(<<"INFO", "assign", UNION {out[i].assign : i \in 1..Len(tr)}>>)
 Init == x = 0
 Next == x' = x
 =============================================================================
